@@ -161,8 +161,8 @@ func snapDiff(a, b map[string]string) []string {
 func checkC11(c apiCase, st *Stats) *Violation {
 	tr := avm.NewTracer()
 	var accepted []c11Key
-	byLoc := map[c11Loc][]int{}   // indices into accepted
-	byPath := map[string][]int{}  // pathStr -> indices
+	byLoc := map[c11Loc][]int{}  // indices into accepted
+	byPath := map[string][]int{} // pathStr -> indices
 	var callStack []uint64
 	var count uint64
 	curIdx := func() uint64 {
